@@ -1,10 +1,11 @@
-import ColoVerif.Proofs.SpreadFLoop
+import ColoVerif.Model.LegacySpreadF
+import ColoVerif.Proofs.SpreadF
 /-
-C06 — kernel-evaluated witnesses for the binary32 `spreadCellsF` (targets already in increasing order, so
-`std::sort` leaves the order unchanged: `List.mergeSort_of_pairwise`), and the numeric instance of the
-enclosure radius.
+C06 — kernel-evaluated witnesses for the PRE-FIX binary32 `LegacySpreadF.spreadCellsF` (targets already in
+increasing order, so `std::sort` leaves the order unchanged: `List.mergeSort_of_pairwise`), and the same inputs
+through the current (clamped) `SpreadF.spreadCellsF`.
 -/
-namespace ColoVerif.SpreadF
+namespace ColoVerif.LegacySpreadF
 open ColoVerif.Spread
 
 theorem sortedOrder_of_sorted (targets : List Rat)
@@ -34,16 +35,12 @@ theorem witness_drift :
   rw [sortedOrder_of_sorted _ (by decide +kernel)]
   decide +kernel
 
-/-- numeric instance: share slack at most 2^-14 (e.g. bins of ≤ 256 cells under the conjectured share bound),
-bins at most 2048 wide, coordinates up to 2^18 in magnitude ⇒ radius below one half -/
-theorem epsF_lt_half {δ lo hi : Rat} (h0 : 0 ≤ δ) (hδ : δ ≤ 1 / 16384) (hw : hi - lo ≤ 2048)
-    (hlo : |lo| ≤ 262144) (hhi : |hi| ≤ 262144) : epsF δ lo hi < 1 / 2 := by
-  unfold epsF
-  have a : δ * (hi - lo) ≤ δ * 2048 := mul_le_mul_of_nonneg_left hw h0
-  have hs0 : 0 ≤ |lo| + |hi| := add_nonneg (abs_nonneg _) (abs_nonneg _)
-  have b : (1 + δ) * (|lo| + |hi|) ≤ (1 + 1 / 16384) * 524288 :=
-    mul_le_mul (by linarith) (by linarith) hs0 (by norm_num)
-  simp only [u32, eta32]
-  nlinarith
+/-- the current function on the drift witness: the last cell is placed on the bin edge -/
+theorem witness_drift_fixed :
+    (ColoVerif.SpreadF.spreadCellsF [0, 1, 2, 3, 4, 5, 6, 7, 8, 9] [16776988, 1, 1, 1, 1, 1, 1, 2, 2, 2] 0 4000000).getD 9 0
+      = 4000000 := by
+  unfold ColoVerif.SpreadF.spreadCellsF
+  rw [sortedOrder_of_sorted _ (by decide +kernel)]
+  decide +kernel
 
-end ColoVerif.SpreadF
+end ColoVerif.LegacySpreadF
